@@ -55,7 +55,7 @@ def parse_blocks(out):
     res, cur = {}, None
     for l in out.split("\n"):
         if l.startswith("CASE "):
-            cur = int(l[5:]); res[cur] = {"t": [], "err": None, "x": None, "done": False}
+            cur = int(l[5:]); res[cur] = {"t": [], "err": None, "x": None, "txt": None, "done": False}
         elif cur is None:
             continue
         elif l.startswith("T "):
@@ -67,6 +67,11 @@ def parse_blocks(out):
             res[cur]["err"] = int(l[4:])
         elif l.startswith("XCHK "):
             res[cur]["x"] = l[5:]
+        elif l.startswith("TXT "):
+            try:
+                res[cur]["txt"] = bytes.fromhex(l[4:]).decode("utf-8", "replace")
+            except ValueError:
+                break
         elif l == "END":
             res[cur]["done"] = True
     return res
@@ -300,6 +305,12 @@ def judge_cases(family, cases, nontrivial):
             fs["c2m_ne"] += 1
             fails.append({"family": family, "case": cases[i], "src": srcs[i], "spec": si["t"], "gcc": gi["t"],
                           "c2m": ci["t"], "c2m_err": ci["err"]})
+        elif ci.get("txt") is not None and G.pp_tokenize(ci["txt"]) != list(ci["t"]):
+            # the token stream is right but the text `c2m -E` prints does not lex back to it
+            stats["text_relex_ne"] = stats.get("text_relex_ne", 0) + 1
+            fs["c2m_ne"] += 1
+            fails.append({"family": family, "case": cases[i], "src": srcs[i], "spec": si["t"], "gcc": gi["t"],
+                          "c2m": ci["t"], "c2m_err": ci["err"], "text": ci["txt"], "kind": "text"})
         else:
             stats["agree"] += 1
             fs["agree"] += 1
@@ -327,11 +338,15 @@ def fails_now(case, exe=None):
     if si["err"] or not (G.toks_match(si["t"], gi["t"]) or G.glued_match(si["t"], gi["t"])):
         return False
     ci = run_harness(exe or HARNESS, [src])[0]
-    return bool(ci["err"]) or not G.toks_match(si["t"], ci["t"])
+    if bool(ci["err"]) or not G.toks_match(si["t"], ci["t"]):
+        return "tokens"
+    if ci.get("txt") is not None and G.pp_tokenize(ci["txt"]) != list(ci["t"]):
+        return "text"
+    return False
 
 
-def shrink(case, budget=150):
-    """greedy: drop lines, then tokens of text lines and replacement lists"""
+def shrink(case, budget=150, want="tokens"):
+    """greedy: drop lines, then tokens of text lines and replacement lists; the kind of failure is kept"""
     cur = [dict(l) for l in case]
     n = [0]
 
@@ -340,7 +355,7 @@ def shrink(case, budget=150):
         if n[0] > budget:
             return False
         try:
-            return fails_now(c)
+            return fails_now(c) == want
         except Exception:
             return False
 
@@ -400,20 +415,95 @@ def shrink(case, budget=150):
 n_reported = {"token": 0, "expr": 0}
 
 
+_U8_ID = re.compile(r"^u8[A-Za-z0-9_]*$")
+
+
+def rename_u8(case):
+    """the same case with every identifier u8... renamed to v8... (causal test for C09:lexer-u8-identifier)"""
+    def rn(t):
+        return ("v" + t[0][1:], t[1]) if _U8_ID.match(t[0]) else t
+    out = []
+    for l in case:
+        l = dict(l)
+        for k in ("toks", "repl"):
+            if k in l:
+                l[k] = [rn(tuple(t)) for t in l[k]]
+        if l.get("name") and _U8_ID.match(l["name"]):
+            l["name"] = "v" + l["name"][1:]
+        if l.get("params"):
+            l["params"] = ["v" + q[1:] if _U8_ID.match(q) else q for q in l["params"]]
+        out.append(l)
+    return out
+
+
+def batch_fail_kinds(cases):
+    """fails_now for many cases at once"""
+    srcs = [G.render_case(c) for c in cases]
+    g = run_gcc_many(srcs)
+    sel = [i for i in range(len(cases)) if not g[i]["err"]]
+    out = [False] * len(cases)
+    if not sel:
+        return out
+    ss = run_spec([cases[i] for i in sel])
+    cc = run_harness(HARNESS, [srcs[i] for i in sel])
+    for k, i in enumerate(sel):
+        si, ci = ss[k], cc[k]
+        if si["err"] or not (G.toks_match(si["t"], g[i]["t"]) or G.glued_match(si["t"], g[i]["t"])):
+            continue
+        if ci["err"] or not G.toks_match(si["t"], ci["t"]):
+            out[i] = "tokens"
+        elif ci.get("txt") is not None and G.pp_tokenize(ci["txt"]) != list(ci["t"]):
+            out[i] = "text"
+    return out
+
+
+def known_signatures(fails):
+    """listed findings: (1) the token stream is right and only the printed text glues tokens;
+    (2) the case passes once identifiers beginning with u8 are renamed (causal test, one batch)"""
+    sigs = [("C09:E-text-glued-tokens" if f.get("kind") == "text" else None) for f in fails]
+    idx, ren = [], []
+    for i, f in enumerate(fails):
+        if sigs[i] is None and "u8" in f["src"]:
+            rc = rename_u8(f["case"])
+            if G.render_case(rc) != f["src"]:
+                idx.append(i); ren.append(rc)
+    for i, kind in zip(idx, batch_fail_kinds(ren) if ren else []):
+        if kind != "tokens":
+            sigs[i] = "C09:lexer-u8-identifier"
+    return sigs
+
+
+_sig_seen = {}
+
+
 def report_token_fails(fails):
-    for f in fails:
+    for f, sg in zip(fails, known_signatures(fails) if fails else []):
+        if sg is not None and not os.environ.get("C09_NO_KNOWN"):   # (debug aid: report listed findings in full)
+            _sig_seen[sg] = _sig_seen.get(sg, 0) + 1
+            if _sig_seen[sg] > 1:
+                continue
+            ci = run_harness(HARNESS, [f["src"]])[0]
+            ck.violation({"stage": "tie", "theorem_or_correspondence": "c2m token sequence / re-lexed -E text == C11 spec == gcc",
+                          "input": {"kind": "case", "family": f["family"], "case": f["case"], "source": f["src"]},
+                          "model_output": f["spec"], "gcc_output": f["gcc"], "impl_output": ci["t"],
+                          "impl_text": ci.get("txt"), "impl_errors": ci["err"],
+                          "how_to_rerun": "cd /verif && ./check C09 --replay <this file>"},
+                         what=f"c2m -E differs from C11/gcc ({sg})", signature=sg)
+            continue
         n_reported["token"] += 1
         if n_reported["token"] > 4:
             continue
-        small = shrink(f["case"])
+        kind = f.get("kind", "tokens")
+        small = shrink(f["case"], want=kind)
         src = G.render_case(small)
         gi, si = run_gcc(src), run_spec([small])[0]
         ci = run_harness(HARNESS, [src])[0]
-        ck.violation({"stage": "tie", "theorem_or_correspondence": "c2m token sequence == C11 spec == gcc",
+        ck.violation({"stage": "tie", "theorem_or_correspondence": "c2m token sequence / re-lexed -E text == C11 spec == gcc",
                       "input": {"kind": "case", "family": f["family"], "case": small, "source": src},
                       "model_output": si["t"], "gcc_output": gi["t"], "impl_output": ci["t"],
-                      "impl_errors": ci["err"],
-                      "spec_verdict": "C11 token sequence (spec, confirmed by gcc) differs from c2m's",
+                      "impl_text": ci.get("txt"), "impl_errors": ci["err"],
+                      "spec_verdict": "C11 token sequence (spec, confirmed by gcc) differs from c2m's"
+                                      + (" printed text when lexed again" if kind == "text" else ""),
                       "how_to_rerun": "cd /verif && ./check C09 --replay <this file>"},
                      what="c2m's preprocessor output differs from the C11 token sequence", signature=None)
 
@@ -681,6 +771,15 @@ run_family("stringify-direct", NB, lambda: G.StrGen(ck.rng))
 run_family("sharp-then-param", NC, lambda: G.SharpGen(ck.rng))
 run_family("conditional-with-macros", NE, lambda: G.CondGen(ck.rng))
 
+# line ends x directives (enumerated)
+le_cases = G.line_end_cases(not QUICK)
+le_fails = []
+for k in range(0, len(le_cases), 400):
+    le_fails += judge_cases("line-end-x-directive", le_cases[k:k + 400], has_expansion)
+report_token_fails(le_fails)
+ck.sample({"family": "line-end-x-directive", "source": G.render_case(le_cases[len(le_cases) // 2])[:600]})
+ck.stage("line-end-x-directive", n=len(le_cases), fails=len(le_fails), t=round(time.time() - T0, 1))
+
 # family D
 eg = G.ExprGen(ck.rng)
 trees, toks_list = [], []
@@ -853,14 +952,16 @@ ck.cov["rule"] = ("token cases: random macro-definition sets + invocation texts 
                   "#/## with role-typed parameters so that pastes are valid, self and mutual recursion, function-like "
                   "names without '(', calls nested to depth 6, empty arguments, calls spanning lines, #undef), direct "
                   "stringification with escapes and every white-space form, `# p` followed by a parameter, nested "
-                  "#if/#elif/#else sections with macros and `defined`; a case counts as distinct non-trivial when its "
+                  "#if/#elif/#else sections with macros and `defined`; enumerated: every kind of line end (function-like name without "
+                  "call, macro ending in one, calls ending/spanning lines, # results, trailing comments) x every directive kind x "
+                  "blank/comment lines in between x position (start, after text, in #if group, in #else group, end of file); a case counts as distinct non-trivial when its "
                   "source text is new, gcc and the spec accept it and at least one macro is defined. "
                   "#if grid: every binary operator over pairs of boundary literals + exhaustive ?: family (every operator shape "
                   "x signedness combination, two levels, as the unselected arm; see cond_arm_family) + random trees of depth <= 3 over "
                   "the boundary grid; counted when C11 gives the expression a value")
 ck.cov["distribution"] = {"token_cases": stats, "families": fam_stats, "generator_features": gen_stats,
                           "if_grid": {k: v for k, v in ifstats.items()},
-                          "stringify_destringify": str_stats}
+                          "stringify_destringify": str_stats, "findings_seen": _sig_seen}
 ck.cov["exhaustive"] = False
 ck.assumptions += [
     "gcc -E -P -std=c11 (gcc 12) is the reference for C11 6.10.1/6.10.3 on the generated domain; the Lean spec is "
